@@ -38,14 +38,14 @@ ValidTok(kind) ==
     [] kind = "text" -> {"tHello", "tEmpty"}
     [] kind = "oper" -> {"op_and", "op_or"}
 InvalidTok(kind) ==
-  CASE kind = "pos" -> {"zero", "neg", "nan", "inf", "str", "none", "list", "arr0d", "arr1d", "a30", "qpix"}
-    [] kind = "posn" -> {"zero", "neg", "nan", "str", "none", "arr1d", "a30"}
-    [] kind = "pix" -> {"parr3", "p2d", "sA", "tuple", "none", "str", "f1_5"}
+  CASE kind = "pos" -> {"zero", "neg", "nan", "inf", "str", "none", "list", "arr0d", "arr1d", "arr1", "list1", "a30", "qpix"}
+    [] kind = "posn" -> {"zero", "neg", "nan", "str", "none", "arr1d", "narr1", "a30"}
+    [] kind = "pix" -> {"parr3", "parr1", "p2d", "sA", "tuple", "none", "str", "f1_5"}
     [] kind = "pix1d" -> {"pA", "p2d", "sarr3", "list", "none"}
-    [] kind = "sky" -> {"sarr3", "pA", "tuple", "none", "q2deg"}
+    [] kind = "sky" -> {"sarr3", "sarr1", "pA", "tuple", "none", "q2deg"}
     [] kind = "sky1d" -> {"sA", "s2d", "parr3", "none"}
-    [] kind = "ang" -> {"f1_5", "qpix", "qm", "qdimless", "aarr", "str", "none"}
-    [] kind = "posang" -> {"a0", "aneg", "qinf", "qnan", "f1_5", "qpix", "qm", "qdimless", "qpercent", "aarr", "none", "str"}
+    [] kind = "ang" -> {"f1_5", "qpix", "qm", "qdimless", "aarr", "aarr1", "aAngle1", "str", "none"}
+    [] kind = "posang" -> {"a0", "aneg", "qinf", "qnan", "f1_5", "qpix", "qm", "qdimless", "qpercent", "aarr", "qarr1", "none", "str"}
     [] kind = "regpix" -> {"regS1", "str", "none"}
     [] kind = "regsky" -> {"regP1", "str", "none"}
     [] kind = "text" -> {}
